@@ -252,7 +252,8 @@ def render_ini(ctx, target_spelling=None, bad=None):
 
     # every definition of the file may start with the SAME first range (never sampled: it ends at r = 0), so that anything the
     # implementation remembers about a definition by its leading form and parameters alone shows
-    head = ">=-9 as.constant 7 " if (ctx.idx // 2) % 4 == 3 and bad is None else ""
+    # (a second spelling of that first range is the parameter-less as.zero: a definition that BEGINS with as.zero is not the zero function)
+    head = (">=-9 as.constant 7 " if (ctx.idx // 2) % 4 == 3 else ">=-9 as.zero " if (ctx.idx // 2) % 4 == 1 else "") if bad is None else ""
 
     def IP(fn, flavour="analytic"):
         if bad is not None and fnkey(fn) == fnkey(bad[0]):
